@@ -107,6 +107,22 @@ func baseWorld() *polyenv.World {
 	return w
 }
 
+// canonicalRejected: a well-formed canonical input was refused. On the unchanged tree that means the harness
+// builds wrong inputs (exit 2); but a mutant that verifies against the WRONG validator set refuses the canonical
+// input AND accepts a forged one, so the verdict is postponed to the end: violations win over this error.
+var (
+	canonMu  sync.Mutex
+	canonErr string
+)
+
+func canonicalRejected(format string, a ...any) {
+	canonMu.Lock()
+	if canonErr == "" {
+		canonErr = fmt.Sprintf(format, a...)
+	}
+	canonMu.Unlock()
+}
+
 func must(err error, what string) {
 	if err != nil {
 		r.HarnessError("%s: %v", what, err)
@@ -256,7 +272,7 @@ func runOnt(tag string, chain uint64, d polyenv.Dump, cases []ontCase, tracked f
 		}
 		verdict(st == "sig-accepted", enough, "ont", "MakeDepositProposal", c.fam, dv, len(c.signers), detail("cross_chain_manager.ImportOuterTransfer", st))
 		if c.fam == "subset" && dv == len(c.signers) && dv == (len(tr)+2)/3 && !acc {
-			r.HarnessError("ont canonical message (exactly ceil(N/3) distinct members) rejected: %s %s: %v", tag, lab, res.Err)
+			canonicalRejected("ont canonical message (exactly ceil(N/3) distinct members) rejected: %s %s: %v", tag, lab, res.Err)
 		}
 	})
 }
@@ -468,7 +484,7 @@ func runNeo(nr neoRouter, d polyenv.Dump, cases []neoCase) {
 		}
 		verdict(st == "sig-accepted", enough, nr.name, "MakeDepositProposal", fam, dg, len(c.list), detail("cross_chain_manager.ImportOuterTransfer", st))
 		if c.by == "tracked" && len(c.list) == nr.m && dg == nr.m && sorted(c.list) && err != nil {
-			r.HarnessError("%s canonical message (%d distinct members in script order) rejected: %s: %v", nr.name, nr.m, lab, err)
+			canonicalRejected("%s canonical message (%d distinct members in script order) rejected: %s: %v", nr.name, nr.m, lab, err)
 		}
 	})
 }
@@ -633,6 +649,12 @@ func main() {
 	sort.Strings(vk)
 	for _, k := range vk {
 		r.Violation(k, viols[k].detail)
+	}
+	if canonErr != "" && len(vk) == 0 {
+		r.HarnessError("%s", canonErr)
+	}
+	if canonErr != "" {
+		r.Note("canonical_input_rejected", canonErr)
 	}
 	mu.Lock()
 	c := map[string]int{}
